@@ -505,7 +505,18 @@ class Fn:
         if k == "discr":
             return f"discr({self.vexpr_place(rv['pl'], depth)})"
         if k == "agg":
-            return self.expr_rvalue(rv, depth)
+            ops = [self.vexpr_operand(o, depth) for o in rv["ops"]]
+            a = rv["agg"]
+            if a == "adt":
+                fs = rv.get("fields", [])
+                return f"{rv['adt']}::{rv['variant']}{{" + ", ".join(f"{n}: {o}" for n, o in zip(fs, ops)) + "}"
+            if a == "tuple":
+                return "(" + ", ".join(ops) + ")"
+            if a == "closure":
+                return f"closure[{rv['closure']}](" + ", ".join(ops) + ")"
+            if a == "array":
+                return "[" + ", ".join(ops) + "]"
+            return "agg(" + ", ".join(ops) + ")"
         return self.expr_rvalue(rv, depth)
 
     def vexpr_call(self, t, depth=10):
